@@ -1,4 +1,5 @@
 import hashlib
+import threading
 from datetime import datetime
 from functools import wraps
 
@@ -80,24 +81,40 @@ class Settings:
 
 settings = Settings()
 
+# Settings objects, per-locale dictionaries and their caches are shared by all
+# callers and are rewritten in place while a date is being parsed, so the
+# public entry points run one at a time.  The lock is re-entrant because entry
+# points call each other (parse -> DateDataParser -> date_parser.parse ...).
+_api_lock = threading.RLock()
+
+
+def synchronized(f):
+    @wraps(f)
+    def wrapper(*args, **kwargs):
+        with _api_lock:
+            return f(*args, **kwargs)
+
+    return wrapper
+
 
 def apply_settings(f):
     @wraps(f)
     def wrapper(*args, **kwargs):
-        mod_settings = kwargs.get("settings")
-        kwargs["settings"] = mod_settings or settings
+        with _api_lock:
+            mod_settings = kwargs.get("settings")
+            kwargs["settings"] = mod_settings or settings
 
-        if isinstance(kwargs["settings"], dict):
-            kwargs["settings"] = settings.replace(
-                mod_settings=mod_settings, **kwargs["settings"]
-            )
+            if isinstance(kwargs["settings"], dict):
+                kwargs["settings"] = settings.replace(
+                    mod_settings=mod_settings, **kwargs["settings"]
+                )
 
-        if not isinstance(kwargs["settings"], Settings):
-            raise TypeError(
-                "settings can only be either dict or instance of Settings class"
-            )
+            if not isinstance(kwargs["settings"], Settings):
+                raise TypeError(
+                    "settings can only be either dict or instance of Settings class"
+                )
 
-        return f(*args, **kwargs)
+            return f(*args, **kwargs)
 
     return wrapper
 
